@@ -65,7 +65,8 @@ fn main() {
     }
     let args = Args { kv };
     // Panics inside the code under test are data; keep the default hook quiet.
-    std::panic::set_hook(Box::new(|_| {}));
+    // (VH_PANIC_MSG=1 keeps the default hook: panic messages of the crate and of the harness on stderr, for debugging)
+    if std::env::var("VH_PANIC_MSG").is_err() { std::panic::set_hook(Box::new(|_| {})); }
     let rc = match argv[1].as_str() {
         "c01" => c01::run(&args),
         "c01one" => c01::run_one_hex(&args),
